@@ -107,3 +107,62 @@ Definition np_argmax1 (b : list bool) : res nat :=
 Definition np_pick (d : nat) (V : list (list value)) (ix : list nat) : res (list value) :=
   mapM (fun j => rbind (np_row ix j) (fun i => rbind (np_row V i) (fun row =>
                  match nth_error row j with Some v => Ok v | None => Err Ragged end))) (seq 0 d).
+
+(* ------------------------------------------------------------------------------------ *)
+(** * numpy on 1-D arrays of numbers and small dense matrices (LME) *)
+
+(** [x[mask]] for a boolean mask *)
+Fixpoint np_compress {A} (m : list bool) (xs : list A) : list A :=
+  match m, xs with
+  | b :: m', x :: xs' => if b then x :: np_compress m' xs' else np_compress m' xs'
+  | _, _ => []
+  end.
+
+(** [v - s], [v / s] (a zero divisor gives non-finite entries: explicit error [e]), [a - b] elementwise *)
+Definition np_sub_s (v : list Q) (s : Q) : list Q := map (fun x => x - s) v.
+Definition np_div_s (e : err) (v : list Q) (s : Q) : res (list Q) :=
+  if Qeq_bool s 0 then Err e else Ok (map (fun x => x / s) v).
+Definition np_vsub (a b : list Q) : list Q := map (fun p => fst p - snd p) (combine a b).
+Definition q_div (e : err) (a b : Q) : res Q := if Qeq_bool b 0 then Err e else Ok (a / b).
+
+(** [statsmodels.api.add_constant(v, prepend=True, has_constant="add")] : a column of ones in front
+    (ValueError on an empty array) *)
+Definition sm_add_constant (v : list Q) : res (list (Q * Q)) :=
+  match v with [] => Err Empty | _ => Ok (map (fun a => (1, a)) v) end.
+
+(** [X @ b] for [X : (n, 2)], [b : (2,)] *)
+Definition np_matvec_n2 (X : list (Q * Q)) (b : Q * Q) : list Q := map (fun x => fst x * fst b + snd x * snd b) X.
+Definition np_add_k_2 (a b : Q * Q) : Q * Q := (fst a + fst b, snd a + snd b).
+
+(** two random effects: [Z : (n, 2)] stored by rows; [A.T] is denoted by the array it transposes *)
+Definition np_dot_T_2 (A B : list (Q * Q)) : mat2 :=
+  Mat2 (dotQ (map fst A) (map fst B)) (dotQ (map fst A) (map snd B))
+       (dotQ (map snd A) (map fst B)) (dotQ (map snd A) (map snd B)).
+Definition np_dot_Tv_2 (A : list (Q * Q)) (r : list Q) : res (Q * Q) :=
+  if (length A =? length r)%nat then Ok (dotQ (map fst A) r, dotQ (map snd A) r) else Err Shape.
+Definition np_add_kk_2 : mat2 -> mat2 -> mat2 := madd.
+Definition np_dot_kk_k_2 : mat2 -> Q * Q -> Q * Q := mulv.
+Definition np_inv_2 : mat2 -> res mat2 := inv2.
+
+Definition mzero2 (m : mat2) : bool := Qeq_bool (m11 m) 0 && Qeq_bool (m12 m) 0 && Qeq_bool (m21 m) 0 && Qeq_bool (m22 m) 0.
+(** [numpy.linalg.pinv] (never raises): the inverse when regular, 0 for 0, [A' / |A|_F^2] for a matrix of rank one *)
+Definition np_pinv_2 (m : mat2) : res mat2 :=
+  match inv2 m with
+  | Ok g => Ok g
+  | Err _ => if mzero2 m then Ok m else
+             let f := m11 m * m11 m + m12 m * m12 m + m21 m * m21 m + m22 m * m22 m in
+             Ok (Mat2 (m11 m / f) (m21 m / f) (m12 m / f) (m22 m / f))
+  end.
+
+(** one random effect: [Z : (n, 1)] is a list, a [(1, 1)] matrix is a number *)
+Definition np_dot_T_1 (A B : list Q) : Q := dotQ A B.
+Definition np_dot_Tv_1 (A : list Q) (r : list Q) : res Q :=
+  if (length A =? length r)%nat then Ok (dotQ A r) else Err Shape.
+Definition np_add_kk_1 : Q -> Q -> Q := Qplus.
+Definition np_dot_kk_k_1 : Q -> Q -> Q := Qmult.
+Definition np_inv_1 (a : Q) : res Q := if Qeq_bool a 0 then Err Singular else Ok (/ a).
+Definition np_pinv_1 (a : Q) : res Q := Ok (if Qeq_bool a 0 then 0 else / a).
+
+(** [numpy.mean], and the SQUARE of [numpy.std] (population variance, ddof = 0) of a 1-D array *)
+Definition np_mean (v : list Q) : Q := sumQ v / Qnat (length v).
+Definition np_var (v : list Q) : Q := sumQ (map (fun x => (x - np_mean v) * (x - np_mean v)) v) / Qnat (length v).
